@@ -206,8 +206,10 @@ func (prop) Run(line string) core.Outcome {
 
 	// ---- oracle
 	cls := "clean"
-	if len(feats) > 0 {
+	if len(feats) == 1 {
 		cls = feats[0]
+	} else if len(feats) > 1 {
+		cls = "multiple-risky-constructs"
 	}
 	if d := sameMeaning(tx, tf); d != "" {
 		o.Failures = append(o.Failures, core.Failure{Class: "tokens:" + cls,
